@@ -77,7 +77,7 @@ class State:
         self.slots = {}
 
 
-QS = ["same", "compat", "float", "incompat", "other_dim", "Qnd_compat", "nd"]
+QS = ["same", "compat", "float", "incompat", "other_dim", "Qnd_compat", "nd", "inverse_compat"]
 
 
 def make_q(kind):
@@ -99,6 +99,9 @@ def make_q(kind):
         return v, v.copy(), M2.dims_of(), 0.0
     elif kind == "other_dim":
         a = osyris.Array(np.array([2.0, 0.5, 4.0]), unit="s")
+    elif kind == "inverse_compat":
+        # the product with a length is a pure number whose unit (m / cm) hides a factor: an opacity times a column density
+        a = osyris.Array(np.array([2.0, 0.5, 4.0]), unit="1/cm")
     else:
         return 2.0, np.float64(2.0), M2.dims_of(), 0.0
     p, d, t = _arr.phys(a)
@@ -740,7 +743,7 @@ def views_work(payload):
 def ops_for(thorough):
     ops = [["store", "A0", "G0", "a"], ["store", "A0", "G1", "a"], ["store", "V0", "G0", "v"], ["store", "X", "G1", "x"],
            ["store_group", "G0", "g"]]
-    pairs = [("iadd", "compat"), ("imul", "float"), ("itruediv", "compat"), ("isub", "incompat"), ("imul", "other_dim"), ("iadd", "Qnd_compat"), ("imul", "nd")]
+    pairs = [("iadd", "compat"), ("imul", "float"), ("itruediv", "compat"), ("isub", "incompat"), ("imul", "other_dim"), ("iadd", "Qnd_compat"), ("imul", "nd"), ("imul", "inverse_compat")]
     if thorough:
         pairs = [(o, q) for o in IOPS for q in QS]
     for tgt in ("A0", "V0", "X", "G0[a]"):
